@@ -152,6 +152,25 @@ def judge(R, it, res, lean):
                     R.corr_break("harmonic within 1e-12 of the exact model", f"{ENTRY}: harmonic", {"P": PP}, res[side][name], lean[key])
             elif msc != sc or mw != res[side][name]["winners"]:
                 R.corr_break(f"{name}: scores and winners equal the model's", f"{ENTRY}: {name}", {"P": PP}, res[side][name], lean[key])
+    # rule-level models of k-ARV / lambda-PRV (proved anonymous and neutral: C11Elicit): scores within 1e-9 on both sides
+    if "util" in a:
+        from harness import eliclib as E_
+        for name, key in (("karv", "karv_model"), ("prv", "prv_model")):
+            for side, rr, PP, VV in (("o", a, P, it.get("vals")), ("t", b, P2, None)):
+                if name == "karv":
+                    amb = any(E_.near([Fraction((VV or transform(P, it["vals"], vperm, sig)[1])[i][j]) for j in E_.ranked(PP, i)], E_.thresholds(m, it["k"]))
+                              for i in range(len(PP)))
+                    if amb:
+                        R.ambiguous += 1
+                        continue
+                t = lean.get((key, side), "err").split()
+                if t[0] != "ok":
+                    R.corr_break(f"{name}: rule-level model defined", f"{ENTRY}: {name}", {"P": PP}, rr[name]["score"], " ".join(t))
+                    continue
+                ms = [Fraction(x) for x in t[1:1 + m]]
+                if any(not V.rel_close(x, Fraction(y), TOL9) for x, y in zip(ms, rr[name]["score"])):
+                    R.corr_break(f"{name}: scores within 1e-9 of the rule-level Lean model", f"{ENTRY}: {name}", {"P": PP, "vals": VV or "transformed"},
+                                 rr[name]["score"], " ".join(t))
     # Harmonic float score must be a function of the rank histogram over the whole run
     for side, PP in (("orig", P), ("trans", P2)):
         for j in range(m):
@@ -183,6 +202,17 @@ def run_items(R, items):
         for name, kk in rules_for(it["m"]):
             lines.append(V.lean_score_line(name, kk, it["P"], it["m"])); where.append((i, name, "o"))
             lines.append(V.lean_score_line(name, kk, P2, it["m"])); where.append((i, name, "t"))
+    from harness import eliclib as E_
+    for i, it in enumerate(items):
+        if it.get("vals") is None:
+            continue
+        P2, V2 = transform(it["P"], it["vals"], it["vperm"], it["sig"])
+        n_, m_ = len(it["P"]), it["m"]
+        lams = E_.thresholds(m_, it["k"])
+        for side, PP, VV in (("o", it["P"], it["vals"]), ("t", P2, V2)):
+            body = [str(n_), str(m_)] + [str(v) for row in PP for v in row] + [fr(v) for row in VV for v in row]
+            lines.append(" ".join(["karv"] + body + [str(len(lams))] + [fr(x) for x in lams])); where.append((i, "karv_model", side))
+            lines.append(" ".join(["prv"] + body + [str(it["lam"])])); where.append((i, "prv_model", side))
     ans = lean_query(lines)
     per = {}
     for (i, name, side), a in zip(where, ans):
